@@ -162,32 +162,6 @@ theorem run_groupSlice (cw : Char → Nat) (g g' : List Word) (h : AllRel (WR cw
     rw [run_append, (strip_wordsText cw _ _ h4).2]
     exact h3.2.1
 
-theorem specLines_mem (o : Opts) (G : List (List Word)) (idx n : Nat) :
-    ∀ d ∈ specLines o G idx n, ∃ g ∈ G, d.slice = groupSlice g ∧
-      (d.pen = [] ∨ ∃ last ∈ g, d.pen = last.pen) ∧
-      (d.indent = o.initialIndent ∨ d.indent = o.subsequentIndent) := by
-  induction G generalizing idx n with
-  | nil => intro d hd; simp [specLines] at hd
-  | cons g r ih =>
-    intro d hd
-    simp only [specLines] at hd
-    have hind : ∀ (x : Text), x = (if n = 0 then o.initialIndent else o.subsequentIndent) →
-        x = o.initialIndent ∨ x = o.subsequentIndent := by
-      intro x hx; by_cases h0 : n = 0 <;> simp [hx, h0]
-    cases hl : g.getLast? with
-    | none =>
-      rw [hl] at hd
-      rcases List.mem_cons.mp hd with rfl | hd
-      · exact ⟨g, by simp, by simp [groupSlice, hl], Or.inl rfl, hind _ rfl⟩
-      · obtain ⟨g0, hg0, h⟩ := ih _ _ d hd
-        exact ⟨g0, by simp [hg0], h⟩
-    | some last =>
-      rw [hl] at hd
-      rcases List.mem_cons.mp hd with rfl | hd
-      · exact ⟨g, by simp, rfl, Or.inr ⟨last, List.mem_of_getLast? hl, rfl⟩, hind _ rfl⟩
-      · obtain ⟨g0, hg0, h⟩ := ih _ _ d hd
-        exact ⟨g0, by simp [hg0], h⟩
-
 /-- the same as `slow_path_colour`, on the rendered lines: for indents without ESC, removing
     the sequences from each line of the coloured paragraph gives the lines of the visible one -/
 -- @audit TW.C13.slow_path_colour_rendered
